@@ -563,7 +563,7 @@ def case_script(case):
 
 
 def campaign(ctx):
-    n = {"quick": 350, "thorough": 6000}[ctx.tier]
+    n = {"quick": 1000, "thorough": 6000}[ctx.tier]
     # the NC_MAX_NFILES+1 case runs on every invocation as the regression replay replays/C17/max-files.json
     runner.run_hypothesis(ctx, case_strategy(ctx.tier), runner.guarded(run_case), n)
 
